@@ -1,6 +1,26 @@
 HOOK_COMMITS = []
-IMPLEMENTED = {"C01", "C02", "C03", "C05", "C09", "C14", "C18"}
+IMPLEMENTED = {"C01", "C02", "C03", "C04", "C05", "C09", "C10", "C11", "C12", "C14", "C18"}
 TABLE = {
+ "C04": {
+  "technique": "model-based property testing over generated input histories: f64 reference controller with running error bound, exact metamorphic relations, differential vs the crate's own stream assembly",
+  "text": "Random gains/setpoints and event histories up to 64 events are run on the real PIDControllerStream; every output is compared with a textbook discrete PID evaluated in f64 under a derived f32 rounding bound (x4), outcomes and update() return values per event kind are asserted, timestamps shifted by a constant and inputs scaled by 2^k must reproduce the outputs exactly, and all-present histories are replayed through the controller assembled from Difference/Integral/Derivative/Product/Sum/NoneToValue/QuantityToFloat streams as in examples/pid.rs.",
+  "note": "Strictly increasing timestamps, finite moderate values; the bound assumes round-to-nearest f32 arithmetic with the same data flow, factor 4 leaves room for re-association; measured head-room is reported.",
+ },
+ "C10": {
+  "technique": "model-based property testing over generated histories with an f64 trapezoid/difference reference and running error bound; exhaustive unit panic table",
+  "text": "Integral and derivative streams over all 49 input units and the three to-state converters are fed random histories with interleaved absent/error events; values are compared with trapezoid sums and difference quotients (applied once or twice) under a derived rounding bound, presence is asserted to start at exactly the 2nd/3rd sample of a run, output time/unit are checked, timestamps shifted by a constant must reproduce outputs exactly, and each to-state converter must panic for each of the 48 wrong units and not for the right one.",
+  "note": "Reset sets as in C05; error caching is asserted in C05 only.",
+ },
+ "C11": {
+  "technique": "model-based property testing over generated event/set/follow histories with an f64 reference and running error bound, plus deletion metamorphism for set(same)",
+  "text": "CommandPID is driven with random histories of samples, absent/error inputs, set() calls of the same/different command and followed-command changes; every get() is compared with a reference that applies the kind's gains and integrates the control signal 0/1/2 times (presence for exactly the right samples, rounding bound x4, error reporting, update() return values); removing set(current command) calls must not change any later output bitwise.",
+  "note": "Where two clauses of the statement overlap (error then absent / set(different) before the next sample) Err and absent are both accepted.",
+ },
+ "C12": {
+  "technique": "property testing over generated histories with repeated timestamps: reference weighted averages with running error bound, convexity invariant, variant differential, panic freedom",
+  "text": "The f32 and Quantity variants of EWMAStream and MovingAverageStream are run on random histories (repeated timestamps, windows from 1 ns to hours, smoothing incl. 0 and 1); outputs are compared with the time-weighted window average and with prev*(1-L)+new*L under a derived bound, must lie within the range of contributing samples, return the first sample unchanged, agree between variants, and no update may panic.",
+  "note": "powf is trusted to 2 ulp (std); timestamps non-decreasing; window > 0.",
+ },
  "C03": {
   "technique": "exhaustive boundary-grid enumeration + random i64 timestamp pairs against max-of-contributors / newest-candidate oracles",
   "text": "All 49 pairs of the extreme/adjacent timestamp grid are crossed with all 64 Datum operator impls (four payload types, Datum/scalar right-hand sides, assign forms), Neg/Not, latest(), the three replace helpers in every slot/candidate state and the terminal reads; random pairs (arbitrary, equal, adjacent) and the timestamp-combining streams through C02's reference with extreme timestamps. Result time must be the maximum of the contributing operands (unchanged for scalars), selections must return a candidate with none strictly newer, replace helpers must replace iff strictly newer or empty and say so.",
